@@ -1,0 +1,21 @@
+//go:build verif
+
+package ssh
+
+// VerifFindAgreedAlgorithms exposes findAgreedAlgorithms to the /verif harness (property C28).
+// lists: kex, hostkey, cipherCS, cipherSC, macCS, macSC, compCS, compSC.
+func VerifFindAgreedAlgorithms(isClient bool, c, s [8][]string) (a *NegotiatedAlgorithms, writeComp, readComp string, err error) {
+	mk := func(l [8][]string) *kexInitMsg {
+		return &kexInitMsg{
+			KexAlgos: l[0], ServerHostKeyAlgos: l[1],
+			CiphersClientServer: l[2], CiphersServerClient: l[3],
+			MACsClientServer: l[4], MACsServerClient: l[5],
+			CompressionClientServer: l[6], CompressionServerClient: l[7],
+		}
+	}
+	a, err = findAgreedAlgorithms(isClient, mk(c), mk(s))
+	if err != nil {
+		return nil, "", "", err
+	}
+	return a, a.Write.compression, a.Read.compression, nil
+}
